@@ -7,6 +7,7 @@ import (
 	"flag"
 	"fmt"
 	"os"
+	"runtime/debug"
 	"time"
 
 	"github.com/thanos-community/promql-engine/verifshim"
@@ -31,6 +32,7 @@ func main() {
 	flag.Parse()
 
 	verifshim.SetControlled(*mode == "controlled")
+	debug.SetGCPercent(400)
 	fs, err := findings.Load(*ffile)
 	if err != nil {
 		fmt.Fprintln(os.Stderr, "vworker: findings:", err)
